@@ -136,7 +136,19 @@ def validate_job_dir_and_return_meta(output_dir):
     screen_metadata = screen_metadata[0]
 
     with open(screen_metadata, "r") as f:
-        screen_metadata_obj = json.load(f)
+        try:
+            screen_metadata_obj = json.load(f)
+        except ValueError:
+            # the marker was cut short by an interruption while it was being published
+            screen_metadata_obj = None
+
+    if (
+        not isinstance(screen_metadata_obj, dict)
+        or "n_unobserved_plates" not in screen_metadata_obj
+    ):
+        # unreadable or not the metadata of a finished step: the job dir is as
+        # incomplete as one without a marker
+        return None
 
     return screen_metadata_obj
 
